@@ -25,6 +25,7 @@ warnings.simplefilter('ignore')
 
 from . import gen     # noqa: E402
 
+REPO = os.environ.get('PV_REPO') or '/repo'
 KERNEL_MODS = ['air', 'evolution_strength', 'graph', 'krylov', 'linalg', 'relaxation',
                'ruge_stuben', 'smoothed_aggregation']
 STATE = dict(calls={}, case=None, last=None, exc={}, ops={}, record=True)
@@ -34,7 +35,7 @@ def install_wrappers():
     import importlib
     import pyamg
     from pyamg import amg_core
-    assert os.path.abspath(pyamg.__file__).startswith('/repo/'), pyamg.__file__
+    assert os.path.abspath(pyamg.__file__).startswith(REPO + '/'), pyamg.__file__
     names = []
     for m in KERNEL_MODS:
         mod = importlib.import_module('pyamg.amg_core.' + m)
@@ -414,7 +415,7 @@ def main(argv):
     if '--replay' in argv:
         rec = pickle.load(open(argv[argv.index('--replay') + 1], 'rb'))
         os.environ.setdefault('PYAMG_VERIF_CORE_DIR', '')
-        sys.path.insert(0, '/repo')
+        sys.path.insert(0, REPO)
         from pyamg import amg_core
         print('replaying kernel', rec['kernel'], 'case', rec['case'], flush=True)
         getattr(amg_core, rec['kernel'])(*rec['args'])
@@ -425,7 +426,7 @@ def main(argv):
     tier = argv[argv.index('--tier') + 1]
     seed = int(argv[argv.index('--seed') + 1])
     only = argv[argv.index('--only') + 1] if '--only' in argv else None
-    sys.path.insert(0, '/repo')
+    sys.path.insert(0, REPO)
     kernels = install_wrappers()
     STATE['last'] = os.path.join(out, 'part_%d.last.pkl' % k)
     ncase = 0
